@@ -63,6 +63,12 @@ func (p *Proxy) Set(kind cache.EntryKind, hash string, o Obj) {
 	p.mu.Unlock()
 }
 
+func (p *Proxy) Delete(kind cache.EntryKind, hash string) {
+	p.mu.Lock()
+	delete(p.objs, Key(kind, hash))
+	p.mu.Unlock()
+}
+
 func (p *Proxy) Has(kind cache.EntryKind, hash string) (Obj, bool) {
 	p.mu.Lock()
 	defer p.mu.Unlock()
